@@ -128,6 +128,7 @@ func (v *Visitor) Visit(s *df.AnalyzerState, source df.NodeWithTrace) {
 
 	// Search from path candidates in the inter-procedural flow graph from sources to sinks
 	// we don't revisit only if it has been visited with the same call stack
+	verifhook.At("taint.Visit.enter")
 	for len(que) != 0 {
 		verifhook.At("taint.Visit.step")
 		cur := que[0]
